@@ -546,3 +546,53 @@ func dig(c byte) int { return int(c - '0') }
 //@   loop 1 invariant [a2] n == 2 ==> ret == iteInt(i >= 1, dig(bts[0])*10, 0)+iteInt(i >= 2, dig(bts[1]), 0)
 //@   loop 1 invariant [a3] n == 3 ==> ret == iteInt(i >= 1, dig(bts[0])*100, 0)+iteInt(i >= 2, dig(bts[1])*10, 0)+iteInt(i >= 3, dig(bts[2]), 0)
 //@   loop 1 decreases n - i
+
+func isNilSlice(b []byte) bool { return b == nil }
+
+func noSep(b []byte, sep byte) bool {
+	return forall(0, len(b), func(k int) bool { return b[k] != sep })
+}
+
+func noSepAfter(b []byte, i int, sep byte) bool {
+	return forall(i+1, len(b), func(j int) bool { return b[j] != sep })
+}
+
+// bsplit3 cuts at the first two separators, or returns the input whole when there are fewer.
+//@ func bsplit3
+//@   props C09 C10 C15
+//@   ensures [whole] isNilSlice(b2) ==> isNilSlice(b3) && sameSlice(b1, bts)
+//@   ensures [fewer] isNilSlice(b2) ==> forall(0, len(bts), func(i int) bool { return bts[i] != sep || noSepAfter(bts, i, sep) })
+//@   ensures [three] !isNilSlice(b2) ==> len(b1)+len(b2)+len(b3)+2 == len(bts) && sameSlice(b1, bts[:len(b1)]) && sameSlice(b2, bts[len(b1)+1:len(b1)+1+len(b2)]) && sameSlice(b3, bts[len(b1)+len(b2)+2:])
+//@   ensures [seps]  !isNilSlice(b2) ==> bts[len(b1)] == sep && bts[len(b1)+1+len(b2)] == sep && noSep(b1, sep) && noSep(b2, sep)
+//@   assigns nothing
+
+func isHTTPSlash(b []byte) bool {
+	return len(b) >= 5 && b[0] == 'H' && b[1] == 'T' && b[2] == 'T' && b[3] == 'P' && b[4] == '/'
+}
+
+// specVersionAt: b is "HTTP/" digits "." digits with the dot at index dot.
+func specVersionAt(b []byte, dot int) bool {
+	return isHTTPSlash(b) && 5 < dot && dot < len(b)-1 && b[dot] == '.' && allDigits(b[5:dot]) && allDigits(b[dot+1:])
+}
+
+//@ func httpParseVersion
+//@   props C09 C10 C15
+//@   ensures [shape] ok ==> len(bts) >= 8 && exists(5, len(bts), func(d int) bool { return specVersionAt(bts, d) })
+//@   ensures [v8]    ok && len(bts) == 8 ==> bts[6] == '.' && major == dig(bts[5]) && minor == dig(bts[7])
+//@   ensures [conv]  len(bts) == 8 && specVersionAt(bts, 6) ==> ok
+//@   ensures [short] len(bts) < 8 ==> !ok
+//@   assigns nothing
+
+// Status line (RFC 7230 section 3.1.2): HTTP-version SP 3DIGIT SP reason.
+func is101(b []byte) bool { return len(b) == 3 && b[0] == '1' && b[1] == '0' && b[2] == '1' }
+
+// specStatusAt: the first blank of line is at a, the second at b.
+func specFieldsAt(line []byte, a, b int) bool {
+	return 0 <= a && a < b && b < len(line) && line[a] == ' ' && line[b] == ' ' && noSep(line[:a], ' ') && noSep(line[a+1:b], ' ')
+}
+
+//@ func httpParseResponseLine
+//@   props C10 C15
+//@   ensures [lit101] err == nil && resp.status == 101 ==> exists(0, len(line), func(a int) bool { return specFieldsAt(line, a, a+4) && is101(line[a+1:a+4]) })
+//@   ensures [errv]   err != nil ==> err == ErrMalformedResponse
+//@   assigns nothing
